@@ -228,12 +228,12 @@ impl Property for C14 {
     }
     fn phases(&self, tier: Tier) -> Vec<Phase> {
         match tier {
-            Tier::Quick => vec![Phase::new("templates", 6_000, Profile::Checked), Phase::new("trees", 12_000, Profile::Checked), Phase::new("wallets", 1_500, Profile::Checked), Phase::new("fee-loop", 1_500, Profile::Checked).budget(120_000)],
+            Tier::Quick => vec![Phase::new("templates", 6_000, Profile::Checked), Phase::new("trees", 12_000, Profile::Checked), Phase::new("wallets", 1_500, Profile::Checked), Phase::new("fee-loop", 1_500, Profile::Checked).budget(30_000)],
             Tier::Thorough => vec![
                 Phase::new("templates", 200_000, Profile::Checked),
                 Phase::new("trees", 400_000, Profile::Checked),
                 Phase::new("wallets", 60_000, Profile::Checked),
-                Phase::new("fee-loop", 60_000, Profile::Checked).budget(120_000),
+                Phase::new("fee-loop", 60_000, Profile::Checked).budget(30_000),
                 Phase::new("templates-release", 100_000, Profile::Release),
                 Phase::new("trees-release", 200_000, Profile::Release),
             ],
